@@ -232,6 +232,25 @@ func (p *Prog) resolveRenames(current map[string]*types.Func) []string {
 			if _, taken := keyAlias[cands[0]]; !taken {
 				keyAlias[cands[0]] = k
 				notes = append(notes, fmt.Sprintf("%s no longer exists; %s has the same receiver and signature and is analysed in its place", k, cands[0]))
+				continue
+			}
+		}
+		// a function turned into a method (or a method moved to another receiver) under the same name: the
+		// signature changes (a parameter became the receiver), the name is the evidence — if it is unique
+		name := k[lastDot(k)+1:]
+		var byName []string
+		for ck := range current {
+			if _, known := anchors[ck]; known {
+				continue
+			}
+			if pkgOfKey(ck) == pkgOfKey(k) && ck[lastDot(ck)+1:] == name {
+				byName = append(byName, ck)
+			}
+		}
+		if len(byName) == 1 {
+			if _, taken := keyAlias[byName[0]]; !taken {
+				keyAlias[byName[0]] = k
+				notes = append(notes, fmt.Sprintf("%s no longer exists; %s carries its name (a function that became a method, or changed receiver) and is analysed in its place", k, byName[0]))
 			}
 		}
 	}
